@@ -7,6 +7,7 @@
 package lab
 
 import (
+	"errors"
 	"bytes"
 	"fmt"
 	"io"
@@ -157,6 +158,18 @@ type StoreWrap struct {
 	quickfix.MessageStore
 	L      *Lab
 	Resets int
+	// FailResets makes the next n Reset calls fail without touching the store (a database that is down, a
+	// read-only disk); FakeCreation, when set, is what CreationTime answers until a Reset succeeds (a store
+	// created in an earlier session-time range).
+	FailResets   int
+	FakeCreation time.Time
+}
+
+func (w *StoreWrap) CreationTime() time.Time {
+	if !w.FakeCreation.IsZero() {
+		return w.FakeCreation
+	}
+	return w.MessageStore.CreationTime()
 }
 
 func (w *StoreWrap) ev(op string, arg, before, after int, b []byte) {
@@ -199,7 +212,13 @@ func (w *StoreWrap) SaveMessageAndIncrNextSenderMsgSeqNum(n int, msg []byte) err
 }
 func (w *StoreWrap) Reset() error {
 	b := w.MessageStore.NextTargetMsgSeqNum()
+	if w.FailResets > 0 {
+		w.FailResets--
+		w.ev("Reset(failed)", 0, b, b, nil)
+		return errors.New("injected: the store cannot be reset now")
+	}
 	err := w.MessageStore.Reset()
+	w.FakeCreation = time.Time{}
 	w.Resets++
 	w.ev("Reset", 0, b, w.MessageStore.NextTargetMsgSeqNum(), nil)
 	return err
